@@ -451,6 +451,48 @@ def check_replace_always_swaps(mir, repo):
     return 'unsat', dict(kind='with BlockState::Replace the nested code can start without the given block table having been swapped in'), dt, stats
 
 
+def check_context_swapped_back(mir):
+    """eval_macro: the caller's Context is swapped out with mem::replace before the macro body runs and swapped
+    back on EVERY way out (also when the body fails).  W flips at each mem::replace::<Context>; W = 1 at the nested
+    evaluation, W = 0 at return."""
+    text = function_text(mir, r'^fn vm::<impl at [^>]*>::eval_macro\(')
+    if text is None:
+        return 'unknown', dict(kind='Executor::eval_macro not found in the MIR'), 0.0, {}
+    fn = parse_function(text)
+    adj, preds = cfg(fn)
+    s_ = z3.Solver()
+    s_.set('timeout', 30000)
+    D = {b: z3.Int('W_%s' % b) for b in fn['blocks'] if not fn['blocks'][b]['cleanup']}
+    s_.add(D['bb0'] == 0)
+    swaps = nested = n = 0
+    for bid in adj:
+        blk = fn['blocks'][bid]
+        dst, callee = call_of(blk['term'])
+        is_swap = bool(callee and re.match(r'(?:std|core)::mem::replace::<context::Context<', callee))
+        swaps += is_swap
+        if callee and re.search(r'with_execution_state::<', callee):
+            s_.add(D[bid] == 1)
+            nested += 1
+        if blk['term'] == 'return;':
+            s_.add(D[bid] == 0)
+        for label, tgt in adj[bid]:
+            if tgt not in D:
+                continue
+            s_.add(D[tgt] == (1 - D[bid] if (is_swap and label == 'ok') else D[bid]))
+            n += 1
+    t0 = time.time()
+    r = s_.check()
+    dt = time.time() - t0
+    stats = dict(blocks=len(D), edges=n, swaps=swaps, nested_evaluations=nested)
+    if not swaps or not nested:
+        return 'unknown', dict(kind='no context swap / nested evaluation found in eval_macro'), dt, stats
+    if r == z3.sat:
+        return 'sat', None, dt, stats
+    if r == z3.unsat:
+        return 'unsat', dict(kind='a way out of eval_macro leaves the macro\'s private context installed in the state (the swap back is skipped)'), dt, stats
+    return str(r), None, dt, stats
+
+
 def analyse(repo, out_dir):
     mir = dump_mir(repo, out_dir)
     results = []
@@ -479,6 +521,13 @@ def analyse(repo, out_dir):
             results.append(r)
     verdict, info, dt, stats = check_replace_always_swaps(mir, repo)
     r = dict(function='with_execution_state', resource='replace_swaps_blocks', spec={}, verdict=verdict, z3_s=round(dt, 3), **stats)
+    if info:
+        r['conflict'] = info['kind']
+        if verdict == 'unknown':
+            r['detail'] = info['kind']
+    results.append(r)
+    verdict, info, dt, stats = check_context_swapped_back(mir)
+    r = dict(function='eval_macro', resource='caller_context', spec={}, verdict=verdict, z3_s=round(dt, 3), **stats)
     if info:
         r['conflict'] = info['kind']
         if verdict == 'unknown':
